@@ -89,6 +89,7 @@ type scen struct {
 	EmptyProc bool              `json:"empty_processed,omitempty"`      // processedAttributes = empty non-nil slice
 	FoldKeys  bool              `json:"verdict_keys_lowercase,omitempty"` // verdicts filed under the lower-cased capability name: not the asked capability
 	HdrLast   bool              `json:"plugin_headers_last,omitempty"`  // plugin headers after the other attributes in the envelope
+	Entry     string            `json:"entry_point,omitempty"`          // "", "oci2" (second OCI statement), "blob" (VerifyBlob, same-named blob statement)
 	Step      string            `json:"history_step,omitempty"`         // position in a history on one verifier instance
 	// observation
 	ObsErr     string   `json:"obs_err"`
@@ -334,6 +335,8 @@ func run(a *Args) error {
 		mgr      *MockManager
 		v        notation.Verifier
 		err      error
+		multi    bool                      // holds two OCI statements and a same-named blob statement
+		blobDoc  *trustpolicy.BlobDocument
 		doc      *trustpolicy.OCIDocument // caller-owned, kept by the verifier by reference
 		config   map[string]string        // plugin config handed to every Verify on this rig
 	}
@@ -364,6 +367,40 @@ func run(a *Args) error {
 		return r
 	}
 
+	const otherScope = "reg.example/other"
+	otherRef := otherScope + strings.TrimPrefix(TestRef, TestScope)
+	mkOv := func(m map[string]string) map[trustpolicy.ValidationType]trustpolicy.ValidationAction {
+		if len(m) == 0 {
+			return nil
+		}
+		ov := map[trustpolicy.ValidationType]trustpolicy.ValidationAction{}
+		for k, v := range m {
+			ov[trustpolicy.ValidationType(k)] = trustpolicy.ValidationAction(v)
+		}
+		return ov
+	}
+	// one verifier holding an OCI document with statements "p" (TestScope, level a) and "q"
+	// (otherScope, level c) AND a blob document whose statement is also named "p" (level b)
+	newRigMulti := func(a, b, c lv, identity bool) *rig {
+		identities := []string{"*"}
+		if !identity {
+			identities = []string{"x509.subject: CN=somebody else,O=Verif,ST=WA,C=US"}
+		}
+		doc := OCIPolicy(a.name, mkOv(a.ov), []string{"ca:s"}, identities, "")
+		doc.TrustPolicies = append(doc.TrustPolicies, trustpolicy.OCITrustPolicy{Name: "q", RegistryScopes: []string{otherScope},
+			SignatureVerification: trustpolicy.SignatureVerification{VerificationLevel: c.name, Override: mkOv(c.ov)},
+			TrustStores:           []string{"ca:s"}, TrustedIdentities: identities})
+		blob := &trustpolicy.BlobDocument{Version: "1.0", TrustPolicies: []trustpolicy.BlobTrustPolicy{{Name: "p",
+			SignatureVerification: trustpolicy.SignatureVerification{VerificationLevel: b.name, Override: mkOv(b.ov)},
+			TrustStores:           []string{"ca:s"}, TrustedIdentities: identities}}}
+		r := &rig{multi: true, store: NewMockStore(), doc: doc, blobDoc: blob, config: sharedConfig}
+		r.script, r.revCalls = NewRevScript(nil, nil)
+		r.mgr = &MockManager{Plugins: map[string]*MockPlugin{}}
+		r.v, r.err = verifier.NewVerifierWithOptions(r.store, verifier.VerifierOptions{OCITrustPolicy: doc, BlobTrustPolicy: blob,
+			RevocationCodeSigningValidator: r.script.Validator(), PluginManager: r.mgr})
+		return r
+	}
+
 	var id int64
 	frameChecked := 0
 	prime := map[int64]bool{} // replay of a history step: the earlier steps are executed, not recorded
@@ -379,7 +416,7 @@ func run(a *Args) error {
 		rg := shared
 		if rg == nil {
 			rg = newRig(s)
-		} else if rg.key != rigKey(s) {
+		} else if !rg.multi && rg.key != rigKey(s) {
 			panic("c02: history step does not fit its verifier instance")
 		}
 		store, script, revCalls, mgr := rg.store, rg.script, rg.revCalls, rg.mgr
@@ -476,6 +513,10 @@ func run(a *Args) error {
 			vopts := notation.VerifierVerifyOptions{ArtifactReference: TestRef, SignatureMediaType: s.Format, PluginConfig: rg.config}
 			snap := func() []string {
 				docJ, _ := json.Marshal(rg.doc)
+				if rg.blobDoc != nil {
+					bj, _ := json.Marshal(rg.blobDoc)
+					docJ = append(docJ, bj...)
+				}
 				certs := func(cs []*x509.Certificate) string {
 					var b strings.Builder
 					for _, c := range cs[:cap(cs)] {
@@ -525,7 +566,19 @@ func run(a *Args) error {
 				}
 			}
 			before := snap()
-			outcome, verr := v.Verify(context.Background(), descArg, env, vopts)
+			var outcome *notation.VerificationOutcome
+			var verr error
+			switch s.Entry {
+			case "blob":
+				bv := v.(notation.BlobVerifier)
+				outcome, verr = bv.VerifyBlob(context.Background(), func(digest.Algorithm) (ocispec.Descriptor, error) { return descArg, nil }, env,
+					notation.BlobVerifierVerifyOptions{SignatureMediaType: s.Format, PluginConfig: rg.config, TrustPolicyName: "p"})
+			case "oci2":
+				vopts.ArtifactReference = otherRef
+				outcome, verr = v.Verify(context.Background(), descArg, env, vopts)
+			default:
+				outcome, verr = v.Verify(context.Background(), descArg, env, vopts)
+			}
 			after := snap()
 			for i := 0; i+1 < len(before); i += 2 {
 				if before[i+1] != after[i+1] {
@@ -1034,6 +1087,60 @@ func run(a *Args) error {
 				steps = append(steps, s)
 			}
 			runHistory(l, (li+hi)%5 != 0, (li+hi)%3 == 2, steps)
+		}
+	}
+
+	// 5b. the same statement NAME in two namespaces: one verifier with an OCI statement "p", a blob
+	// statement "p" and a second OCI statement "q", whose levels / override maps differ; Verify and
+	// VerifyBlob (and the two OCI statements) alternate, each step judged on the statement of ITS entry point
+	triples := [][3]lv{
+		{{name: "strict"}, {name: "audit"}, {name: "permissive"}},
+		{{name: "audit"}, {name: "strict"}, {name: "strict", ov: map[string]string{"expiry": "log", "revocation": "skip"}}},
+		{{name: "permissive", ov: map[string]string{"expiry": "enforce"}}, {name: "permissive"}, {name: "permissive", ov: map[string]string{"revocation": "enforce"}}},
+		{{name: "strict", ov: map[string]string{"revocation": "skip"}}, {name: "strict", ov: map[string]string{"revocation": "log"}}, {name: "strict"}},
+		{{name: "audit", ov: map[string]string{"authenticity": "enforce"}}, {name: "audit"}, {name: "audit", ov: map[string]string{"authenticTimestamp": "enforce"}}},
+	}
+	facts := []step{
+		func(s *scen) { s.Expired = true },
+		func(s *scen) { s.RevMode = 1 },
+		func(s *scen) { s.Auth = 3 },
+		func(s *scen) { s.TsOK = false; s.RevMode = 2 },
+		seq(withPlug("Rev"), func(s *scen) { s.Rev = 2 }),
+		seq(withPlug("TI", "Rev"), func(s *scen) { s.TI = 2; s.Rev = 0 }),
+	}
+	orders := [][]string{{"", "blob"}, {"blob", ""}, {"", "blob", ""}, {"blob", "", "blob"}, {"", "oci2", ""}, {"oci2", "", "oci2"}, {"blob", "oci2", ""}}
+	for ti, tr := range triples {
+		for fi, fact := range facts {
+			for oi, ord := range orders {
+				if (ti+fi+oi)%2 == 1 && a.Tier != "thorough" {
+					continue
+				}
+				if a.Only >= id && a.Only < id+int64(len(ord)) {
+					for j := id; j < a.Only; j++ {
+						prime[j] = true
+					}
+				}
+				var rg *rig
+				for i, entry := range ord {
+					l := tr[0]
+					switch entry {
+					case "blob":
+						l = tr[1]
+					case "oci2":
+						l = tr[2]
+					}
+					s := base("history2", l)
+					s.PM = 1
+					fact(s)
+					s.Entry = entry
+					s.Identity = (ti+fi)%4 != 3
+					s.Step = fmt.Sprintf("%d/%d", i+1, len(ord))
+					if rg == nil {
+						rg = newRigMulti(tr[0], tr[1], tr[2], s.Identity)
+					}
+					exec(s, rg)
+				}
+			}
 		}
 	}
 
